@@ -149,8 +149,18 @@ var (
 	xlogMu    sync.Mutex
 	xlogFile  *os.File
 	xlogCount = map[string]int{}
-	xlogOps   = map[string]bool{"rct_fwd": true, "rle_encode": true, "dwt_fwd1d": true, "dwt_inv1d": true, "mq_encode": true}
+	xlogOps   = map[string]bool{"rct_fwd": true, "rle_encode": true, "dwt_fwd1d": true, "dwt_inv1d": true, "mq_encode": true,
+		"rle_decode": true, "jls_encode": true, "jlsn_encode": true, "jll_encode": true, "sv1_encode": true,
+		"dct_fdct": true, "dct_fdct12": true, "dct_idct": true, "dct_quant8": true, "dct_quant12": true}
 )
+
+// xlogCap is the per-operation sample size (VERIF_XLOG_CAP, default 60).
+func xlogCap() int {
+	if v, err := strconv.Atoi(os.Getenv("VERIF_XLOG_CAP")); err == nil && v > 0 {
+		return v
+	}
+	return 60
+}
 
 func xlog(op string, args []string, rep string) {
 	if !xlogOps[op] {
@@ -169,7 +179,7 @@ func xlog(op string, args []string, rep string) {
 	}
 	xlogMu.Lock()
 	defer xlogMu.Unlock()
-	if xlogCount[op] >= 60 {
+	if xlogCount[op] >= xlogCap() {
 		return
 	}
 	if xlogFile == nil {
